@@ -93,6 +93,8 @@ v("ok-ser-handler-del", S, "                except BaseException:\n             
   "                except BaseException:\n                    del data[index]\n", [])
 v("ok-ser-range-explicit-start", S, "range(dim + 1) for dim in orders", "range(0, dim + 1) for dim in orders", [])
 
+v("se-trial-extent-one-short-for-slices", S, "order.stop if isinstance(order, slice) else np.max(order, initial=0) + 1", "order.stop - 1 if isinstance(order, slice) else np.max(order, initial=0) + 1", ["C19"], "after seed C19-r5")
+v("ok-se-trial-extent-generous", S, "order.stop if isinstance(order, slice) else np.max(order, initial=0) + 1", "order.stop + 1 if isinstance(order, slice) else np.max(order, initial=0) + 2", [])
 # --------------------------------------------------------------------------- block_diagonalization.py
 B = "block_diagonalization"
 v("bd-dense-orientation", B, "            energy_differences = eigs_A.reshape(-1, 1) - eigs_B\n", "            energy_differences = eigs_B.reshape(-1, 1) - eigs_A\n", ["C16", "C01"])
@@ -163,6 +165,20 @@ v("bd-taylor-cut-at-first-symbol-degree", B, "    def op_eval(*index):\n        
   "    degree = max(sympy.Poly(entry, *symbols).degree() for entry in operator)\n\n    def op_eval(*index):\n        if sum(index) > degree:\n            return zero\n        expr = operator_derivatives[index].subs({n: 0 for n in symbols})\n", ["C13", "C14"], "seed C13-r4")
 v("ok-bd-taylor-cut-at-total-degree", B, "    def op_eval(*index):\n        expr = operator_derivatives[index].subs({n: 0 for n in symbols})\n",
   "    degree = max(sympy.Poly(entry, *symbols).total_degree() for entry in operator)\n\n    def op_eval(*index):\n        if sum(index) > degree:\n            return zero\n        expr = operator_derivatives[index].subs({n: 0 for n in symbols})\n", [])
+v("bd-kpm-auxiliary-part-inlined", B, "            return solve_sylvester_kpm(Y, index) + solve_sylvester_explicit(Y, index)",
+  "            return solve_sylvester_kpm(Y, index) + ((Y @ aux_vectors) / (eigs[index[0]].reshape(-1, 1) - eigs[-1])) @ Dagger(aux_vectors)", ["C20", "C16"], "after seed C20-r5")
+v("bd-dense-inverse-in-inherited-dtype-buffer", B, """            with np.errstate(divide="ignore", invalid="ignore"):
+                energy_denominators = np.where(
+                    np.abs(energy_differences) > atol, 1 / energy_differences, 0
+                )
+            return Y * energy_denominators
+        if sparse.issparse(Y):""", """            energy_denominators = np.zeros_like(energy_differences)
+            nonzero = np.abs(energy_differences) > atol
+            energy_denominators[nonzero] = 1 / energy_differences[nonzero]
+            return Y * energy_denominators
+        if sparse.issparse(Y):""", ["C16", "C01"], "after seed C16-r5")
+v("bd-derivative-reads-the-memo", B, "        previous_index = list(index)\n        previous_index[symbol_number] -= 1\n",
+  "        previous_index = list(index)\n        previous_index[symbol_number] -= 1\n        if tuple(previous_index) not in operator_derivatives._data:\n            pass\n", ["C10", "C12"], "after seed C10-r5")
 v("ok-bd-index-checked-annotated", B, "    index_checked = set()\n", "    index_checked: set[tuple[int, ...]] = set()\n", [])
 v("ok-bd-last-block-named", B, "        if H.shape[0] - 1 in fully_diagonalize:\n", "        last_block = H.shape[0] - 1\n        if last_block in fully_diagonalize:\n", [])
 v("bd-last-block-off-by-one", B, "        if H.shape[0] - 1 in fully_diagonalize:\n", "        last_block = H.shape[0]\n        if last_block in fully_diagonalize:\n", ["C20"])
